@@ -91,8 +91,27 @@ def run(tier, scratch, t0, replay=None):
     items = []
     corp = K.corpus_files()
     rng = K.rng_for("C07")
+    # corpus files of a *host's* release that do not carry that host's own magic (pre-release files such as 3.8's 3401):
+    # the host must not take its native fast path for them - always in the sample
+    import struct
+
+    host_magic = {(3, 8): 3413, (3, 9): 3425, (3, 10): 3439, (3, 11): 3495, (3, 12): 3531, (3, 13): 3571}  # CPython's registry
+    pre = []
+    for p in corp:
+        d = os.path.basename(os.path.dirname(p)).replace("bytecode_", "")
+        try:
+            v = tuple(int(x) for x in d.split("."))
+        except ValueError:
+            continue
+        if v in host_magic:
+            with open(p, "rb") as f:
+                m = struct.unpack("<H", f.read(2))[0]
+            if m != host_magic[v]:
+                pre.append(p)
+    res.count("c07_host_release_files_with_foreign_magic", len(pre))
     if quick:
         corp = [p for p in rng.sample(corp, 90) if os.path.getsize(p) < 9000][:60]
+    corp = sorted(set(corp) | set(pre))
     for p in corp:
         vtag = os.path.basename(os.path.dirname(p)).replace("bytecode_", "")
         items.append({"pyc": p, "label": "corpus/" + vtag + "/" + os.path.basename(p), "vtag": vtag})
